@@ -221,4 +221,24 @@ theorem inplace_counterexample :
        some [⟨"RotZ", [.reg ⟨2, 0⟩, .imm 1, .imm 4]⟩, ⟨"RotX", [.reg ⟨2, 0⟩, .imm 7, .imm 3]⟩]] := by
   decide
 
+/-! ### template names are just names -/
+
+/-- label assignment commutes with instantiation for EVERY template name and every label table —
+a template called `LOOP_EXIT`, `IF_EXIT1`, `R0` … is not a label -/
+theorem assignLabel_subst (L : List (String × Int)) (σ : String → Int) (o : POp) :
+    substOp σ (assignLabel L o) = assignLabel L (substOp σ o) := by
+  cases o with
+  | int v => rfl
+  | tmpl n => rfl
+  | txt s =>
+    simp only [assignLabel, substOp]
+    cases L.lookup s <;> rfl
+
+/-- with a by-name lookup a template named like a generated label is frozen to the label's line
+and the supplied value is ignored -/
+theorem label_named_template_counterexample :
+    substOp (fun _ => 5) (assignLabelByName [("LOOP_EXIT", 12)] (.tmpl "LOOP_EXIT")) = .int 12 ∧
+    assignLabelByName [("LOOP_EXIT", 12)] (substOp (fun _ => 5) (.tmpl "LOOP_EXIT")) = .int 5 := by
+  decide
+
 end NQ.C06
